@@ -18,11 +18,12 @@ PROPS = {
             {"harness": "H_C01_longline", "quick": {"len": 70000}, "thorough": {"len": 70000}},
             {"harness": "H_C01_longline", "params": {"len": 1100000}},
             {"harness": "H_C01_twofiles", "quick": {"calls": 3}, "thorough": {"calls": 4}},
+            {"harness": "H_C01_bigfile", "quick": {"entries": 40}, "thorough": {"entries": 80}},
             {"harness": "H_C01_shadow", "quick": {"n": 2}, "thorough": {"n": 3}},
             {"harness": "H_C01_mixed", "thorough_only": True, "thorough": {"n": 1, "m": 1}, "timeout_s": 900},
         ],
         "bounds": {"quick": "MatchSnapshot text: every byte string <= 5 bytes; 1..3 lines each of 8 shapes around the tokens --- and /-/-/-/ with symbolic filler, via MatchSnapshot and MatchYAML next to a pre-existing entry; "
-                            "JSON templates with string leaves <= 2 bytes; 11 calls in one test (ordinals 1 and 10 symbolic); one 70 000-byte and one 1 100 000-byte line; one test recording 2..3 calls into two files through the three keyed entry points, three executions; a body line shaped like another test's header",
+                            "JSON templates with string leaves <= 2 bytes; 11 calls in one test (ordinals 1 and 10 symbolic); one 70 000-byte and one 1 100 000-byte line; a 330 KB file of 40 four-line entries recorded and replayed; one test recording 2..3 calls into two files through the three keyed entry points, three executions; a body line shaped like another test's header",
                    "thorough": "every byte string <= 7 bytes; 1..4 structured lines; mixes of the three kinds over two tests"},
         "assumptions": COMMON_ASSUME + ["no line of the text ends in a carriage return (documented limitation)"],
         "outside": ["structured Go values (only their formatted text is quantified)",
@@ -53,6 +54,7 @@ PROPS = {
             {"harness": "H_C13_opcodes", "pkg": "difflib", "params": {"alphabet": 4, "p": 6, "q": 5, "pmin": 6, "qmin": 5}, "thorough_only": True},
             {"harness": "H_C13_opcodes_long", "pkg": "difflib", "params": {"lines": 12}, "quick": {"sym": 1}, "thorough": {"sym": 2}},
             {"harness": "H_C13_opcodes_long", "pkg": "difflib", "params": {"lines": 210}, "quick": {"sym": 1}, "thorough": {"sym": 1}},
+            {"harness": "H_C13_popular", "pkg": "difflib"},
             {"harness": "H_C13_empty", "params": {"ascii": 1}, "quick": {"n": 3}, "thorough": {"n": 4}},
             {"harness": "H_C13_empty", "params": {"ascii": 0}, "quick": {"n": 2}, "thorough": {"n": 2}},
             {"harness": "H_C13_empty", "params": {"ascii": 0, "nalo": 3, "nahi": 3, "nblo": 1, "nbhi": 1}},
@@ -72,10 +74,12 @@ PROPS = {
             {"harness": "H_C03_addressing", "quick": {"pre": 2, "steps": 3}, "thorough": {"pre": 11, "steps": 3}},
             {"harness": "H_C03_isolation", "reach": ["add", "update"], "quick": {"frames": 2, "n": 3}, "thorough": {"frames": 3, "n": 3}},
             {"harness": "H_C03_lookalike"},
+            {"harness": "H_C04_layouts"},
+            {"harness": "H_C01_longline", "params": {"len": 1100000}},
             {"harness": "H_C01_twofiles", "quick": {"calls": 3}, "thorough": {"calls": 4}},
         ],
         "bounds": {"quick": "addressing: 2 distinct tests from a pool of 4 names with prefix relations, 0 or 2 earlier calls each, then 1..3 steps, each a passing / mismatching / invalid-JSON / matcher-error call of either test or the end of an execution of either test; "
-                            "isolation: files of 0..2 frames with bodies <= 3 arbitrary bytes, one add or update with a body <= 3 bytes; an earlier entry with a line that contains or ends with another slot's header; four spellings of one directory; one test recording into two files",
+                            "isolation: files of 0..2 frames with bodies <= 3 arbitrary bytes, one add or update with a body <= 3 bytes; an earlier entry with a line that contains or ends with another slot's header; four spellings of one directory; one test recording into two files; five file layouts (no final newline, no blank line between entries, extra blank lines) with an update of the first, middle or last entry; a 1.1 MB line",
                    "thorough": "0..11 earlier calls (ordinals above 9); files of 0..3 frames"},
         "assumptions": COMMON_ASSUME + ["pre-existing files are well formed: bodies have no whole line `---` and no CR at end of line"],
         "outside": ["interleavings of concurrently running tests (see C06)", "ids that occur as a whole body line of another entry (known finding K2, see C01)"],
@@ -87,8 +91,10 @@ PROPS = {
             {"harness": "H_C04_update", "params": {"struct": 1, "frames": 2, "minframes": 2}, "quick": {"lines": 1}, "thorough": {"lines": 1}},
             {"harness": "H_C04_update", "params": {"big": 5000, "frames": 2, "minframes": 2, "n": 1}},
             {"harness": "H_C04_standalone", "quick": {"n": 3}, "thorough": {"n": 4}},
+            {"harness": "H_C04_layouts"},
+            {"harness": "H_C14_update"},
         ],
-        "bounds": {"quick": "1..2 entries, each changed or not, old/new ASCII texts <= 2 bytes; standalone: texts <= 3 bytes",
+        "bounds": {"quick": "1..2 entries, each changed or not, old/new ASCII texts <= 2 bytes; standalone: texts <= 3 bytes; five file layouts x update of the first, middle or last of three entries; JSON documents with $, % and backslashes updated (keyed and standalone)",
                    "thorough": "texts <= 3 bytes; standalone <= 4"},
         "assumptions": COMMON_ASSUME + ["no CR at end of line"],
         "outside": ["MatchJSON/MatchYAML entries in update mode (same storage path as MatchSnapshot)"],
@@ -97,8 +103,10 @@ PROPS = {
         "runs": [
             {"harness": "H_C05_match", "reach": ["missing", "equal", "different"], "quick": {"envlen": 5}, "thorough": {"envlen": 6}},
             {"harness": "H_clean", "params": {"prop": 5}, "reach": ["ci"], "quick": {"count": 1, "n": 0}, "thorough": {"count": 2, "n": 1}},
+            {"harness": "H_C05_readonly"},
+            {"harness": "H_C05_run"},
         ],
-        "bounds": {"quick": "CI x Update option x UPDATE_SNAPS (any string of <= 5 bytes) x 5 entry points x entry state",
+        "bounds": {"quick": "CI x Update option x UPDATE_SNAPS (any string of <= 5 bytes) x 5 entry points x entry state; LF or CRLF line endings in the file x CI x Update(false) x match/mismatch x 3 keyed entry points; Clean under a -run filter x CI x UPDATE_SNAPS (<= 5 bytes) with an obsolete file nothing exempts",
                    "thorough": "UPDATE_SNAPS any string of <= 6 bytes"},
         "assumptions": COMMON_ASSUME + ["ciinfo.IsCI is an arbitrary Boolean fixed at start-up"],
         "outside": [],
@@ -110,6 +118,7 @@ PROPS = {
             {"harness": "H_C12_independent", "stress": 20000, "quick": {"preempt": 2}, "thorough": {"preempt": 3}},
             {"harness": "H_C11_location", "params": {"percent": 0}, "quick": {"n": 0}, "thorough": {"n": 1}},
             {"harness": "H_C12_mismatch"},
+            {"harness": "H_C19_mixed", "quick": {"calls": 2}, "thorough": {"calls": 3}},
         ],
         "bounds": {"quick": "a first call that passes or mismatches followed by a replaying call, any pair of entry points, Filename unset / plain / with a directory part; every subset of {Filename, Ext, Update, JSON} options; sequences of 1..2 of the five entry points through one shared Config; two goroutines issuing any pair of entry points through one shared Config, all schedules with <= 1 preemption; two Configs with different JSON options used by two goroutines at once (MatchJSON or MatchStandaloneJSON), stores to the library's package-level variables being scheduling points, <= 2 preemptions",
                    "thorough": "sequences of 1..3 entry points"},
@@ -149,6 +158,7 @@ PROPS = {
             {"harness": "H_C19_standalone", "quick": {"n": 3, "calls": 2}, "thorough": {"n": 5, "calls": 3}},
             {"harness": "H_C19_json", "quick": {"n": 2}, "thorough": {"n": 3}},
             {"harness": "H_C19_mixed", "quick": {"calls": 2}, "thorough": {"calls": 4}},
+            {"harness": "H_C02_standalone", "quick": {"n": 3}, "thorough": {"n": 4}},
             {"harness": "H_C14_invalid", "reach": ["valid", "invalid"], "quick": {"n": 2}, "thorough": {"n": 3}},
         ],
         "bounds": {"quick": "1..2 standalone calls with arbitrary byte values <= 3 (CR allowed), two executions; JSON templates with string leaves <= 2 bytes; 2 calls of one test mixing the two standalone entry points and three Configs (default, Ext, Filename)",
@@ -178,6 +188,7 @@ PROPS = {
             {"harness": "H_C10_bodies", "params": {"big": 5000}},
             {"harness": "H_C10_names"},
             {"harness": "H_C07_symlink"},
+            {"harness": "H_C09_odd"},
         ],
         "bounds": {"quick": "program: TestA (2 calls), TestB (1 call), TestS (1 standalone call), -count 1..2; directory with optional stale ordinal, stale test, "
                             "stale standalone file, stale multi-entry file, 3 layouts; CI x UPDATE_SNAPS (<= 5 bytes) x sort; one live body symbolic (<= 1 byte); a 5000-byte live body; nine unusual test names; the snapshot directory reached through a symbolic link",
@@ -191,6 +202,7 @@ PROPS = {
             {"harness": "H_C08_skip", "reach": ["skip-mode"], "quick": {"lit": 1}, "thorough": {"lit": 2}},
             {"harness": "H_C08_midskip"},
             {"harness": "H_C07_symlink"},
+            {"harness": "H_C09_odd"},
         ],
         "bounds": {"quick": "same program and directory shapes as C07; all three Clean modes incl. sort requested on an unsorted file with stale entries",
                    "thorough": "-count 1..3, all bodies symbolic"},
@@ -218,6 +230,7 @@ PROPS = {
             {"harness": "H_C10_bodies", "params": {"big": 5000}},
             {"harness": "H_C10_names"},
             {"harness": "H_C10_secondfile"},
+            {"harness": "H_C10_both"},
         ],
         "bounds": {"quick": "files of 1..2 entries with ids Test<a-c> - <1-9> (symbolic letter and digit), bodies of <= 1 arbitrary byte, each entry stale or live, update x sort; "
                             "one entry with a 1..2-line structured body (token shapes, header-like line) rewritten because of a stale or unsorted neighbour; one- vs two-digit ordinals (symbolic digits) in both orders; a 5000-byte body across bufio's read buffer; nine unusual test names (brackets, #, dashes, non-ASCII, Benchmark/Fuzz); three files examined in one go, the middle one needing nothing",
@@ -227,12 +240,13 @@ PROPS = {
     },
     "C11": {
         "runs": [
-            {"harness": "H_C11_location", "params": {"percent": 1}, "quick": {"n": 1}, "thorough": {"n": 2}},
+            {"harness": "H_C11_location", "params": {"percent": 1}, "quick": {"n": 1}, "thorough": {"n": 1, "deep": 200}},
             {"harness": "H_C11_nontest"},
+            {"harness": "H_C11_created"},
         ],
         "bounds": {"quick": "Dir in {unset, relative, nested relative, absolute} x Filename x Ext x test name x sub-test name, each with a symbolic suffix of <= 1 byte over "
                             "[a-z0-9._%-]; multi-entry / standalone / standalone JSON; 1st and 2nd standalone call; 0..2 helper frames in non-test files (one a closure); with and without trimpath; the same helper reached afterwards from a second test file (with a dot in its name); a test function living in a non-test file, run as a sub-test body, reaching go-snaps through another non-test file",
-                   "thorough": "suffixes of <= 2 bytes"},
+                   "thorough": "the same with 200 helper frames (suffixes of 2 bytes were tried: z3 answers unknown on the path comparisons after 20 s per query, so that bound is not claimed)"},
         "assumptions": COMMON_ASSUME + ["runtime.Caller reports the interpreter's own call stack (real go-snaps frames; harness frames carry the file names the harness tags them with; "
                                         "testing.tRunner on top); a trimpath build is modelled as runtime.GOROOT()==\"\" with module-relative file names and the package directory as working directory"],
         "outside": ["what the real runtime reports for inlined frames, wrappers and cgo", "helpers that live in a *_test.go file of another directory", "os.Getwd (any use is reported as inconclusive)"],
@@ -242,6 +256,7 @@ PROPS = {
             {"harness": "H_C14_canonical", "quick": {"n": 1}, "thorough": {"n": 2, "v2sym": 1}},
             {"harness": "H_C14_invalid", "reach": ["valid", "invalid"], "quick": {"n": 3}, "thorough": {"n": 4}},
             {"harness": "H_C12_independent", "stress": 20000, "quick": {"preempt": 2}, "thorough": {"preempt": 3}},
+            {"harness": "H_C14_update"},
         ],
         "bounds": {"quick": "templates {K1:V1,K2:7}, {K1:{K2:V1}}, [V1,7] with symbolic keys (<= 1 printable byte, distinct, no escapes) and V1 in digit/string/true|false|null/{}|[]; "
                             "one symbolic white-space byte at any one of 7 structural gaps; default, unsorted-tab-indent and width-80 configurations; string, []byte and Go-value forms; "
